@@ -362,6 +362,22 @@ def program(r, seed, max_bound, want_assert=None, families=None, min_bound=2, ba
                 f = r.choice([x for x in fams if x != 'actor'] or ['random'])
                 ops += b.block(f, nact)
             acts.append(dict(id=t, host='h0', template=True, ops=ops[:4]))
+        # a template is instantiated at most once: the harness resolves `join tX` / `kill tX` through a table keyed by the
+        # template name, so a second instance would make the target depend on the order of the creations
+        seen_tpl = set()
+        for a in acts:
+            kept = []
+            dropped = set()
+            for op in a['ops']:
+                if op[0] == 'create':
+                    if op[1] in seen_tpl:
+                        dropped.add(op[1])
+                        continue
+                    seen_tpl.add(op[1])
+                elif op[0] == 'join' and op[1] in dropped:
+                    continue
+                kept.append(op)
+            a['ops'] = kept or [['sleep', 1.0]]
         plan['actors'] = acts
         plan['families'] = sorted(fams)
         if balance:
